@@ -39,10 +39,26 @@ func checkC16(c *Ctx) {
 	p, r := c.P, c.R
 	roots := c.Roots()
 	msgReach := p.Reach(roots.Msg...)
-	r.Min("C16.guards", 6)
+	r.Min("C16.guards", 7)
 	r.Min("C16.index-agreement", 3)
 	r.Min("C16.key-schema", 6)
 	r.Min("C16.attribution", 3)
+
+	// the signer resolver answers from the store alone (no process-local cache: delegate keys are per chain and can
+	// be re-registered)
+	for _, f := range sortedFuncs(c.LiveReach()) {
+		if okR, _ := c.bondedResolver(f); !okR {
+			continue
+		}
+		ws := c.globalWrites(p.Reach(f), nil)
+		where := p.Pos(f.Pos())
+		detail := ""
+		if len(ws) > 0 {
+			where = c.pos(ws[0].in)
+			detail = fname(ws[0].f) + " " + ws[0].how
+		}
+		r.Check(len(ws) == 0, "C16.guards", "resolver-pure:"+fname(f), where, "the signer resolver keeps no process-local state", "the signer resolver keeps process-local state ("+detail+"): a resolution cached for one chain or one registration is served for another")
+	}
 
 	// ---- C16.guards ------------------------------------------------------------
 	for _, f := range c.SemanticFuncs(msgReach) {
